@@ -198,9 +198,8 @@ Conversion<Unit::ReciprocalTemperature, Unit::ReciprocalTemperature::PerFahrenhe
 }
 
 template <typename NumericType>
-inline const std::map<Unit::ReciprocalTemperature,
-                      std::function<void(NumericType* values, const std::size_t size)>>
-    MapOfConversionsFromStandard<Unit::ReciprocalTemperature, NumericType>{
+inline constexpr auto MapOfConversionsFromStandard<Unit::ReciprocalTemperature, NumericType>{
+  MakeConversionTable<Unit::ReciprocalTemperature, NumericType>({
       {Unit::ReciprocalTemperature::PerKelvin,
        Conversions<Unit::ReciprocalTemperature, Unit::ReciprocalTemperature::PerKelvin>::
            FromStandard<NumericType>},
@@ -213,12 +212,12 @@ inline const std::map<Unit::ReciprocalTemperature,
       {Unit::ReciprocalTemperature::PerFahrenheit,
        Conversions<Unit::ReciprocalTemperature, Unit::ReciprocalTemperature::PerFahrenheit>::
            FromStandard<NumericType>},
+})
 };
 
 template <typename NumericType>
-inline const std::map<Unit::ReciprocalTemperature,
-                      std::function<void(NumericType* const values, const std::size_t size)>>
-    MapOfConversionsToStandard<Unit::ReciprocalTemperature, NumericType>{
+inline constexpr auto MapOfConversionsToStandard<Unit::ReciprocalTemperature, NumericType>{
+  MakeConversionTable<Unit::ReciprocalTemperature, NumericType>({
       {Unit::ReciprocalTemperature::PerKelvin,
        Conversions<Unit::ReciprocalTemperature, Unit::ReciprocalTemperature::PerKelvin>::
            ToStandard<NumericType>},
@@ -231,6 +230,7 @@ inline const std::map<Unit::ReciprocalTemperature,
       {Unit::ReciprocalTemperature::PerFahrenheit,
        Conversions<Unit::ReciprocalTemperature, Unit::ReciprocalTemperature::PerFahrenheit>::
            ToStandard<NumericType>},
+})
 };
 
 }  // namespace Internal
